@@ -23,14 +23,15 @@ import (
 var vErrInjected = errors.New("injected fault")
 
 type vWorld struct {
-	st      *vStore
-	usage   map[string]int // node -> recorded usage (resource manager)
-	applied map[string]int // container id -> amount the engine applied
-	running map[string]bool
-	calls   int
-	faultAt int
-	site    string // where the fault fired
-	sites   []string
+	st       *vStore
+	usage    map[string]int // node -> recorded usage (resource manager)
+	capacity map[string]int // node -> recorded capacity (resource manager)
+	applied  map[string]int // container id -> amount the engine applied
+	running  map[string]bool
+	calls    int
+	faultAt  int
+	site     string // where the fault fired
+	sites    []string
 }
 
 // fault reports whether the current fallible call is the one that fails.
@@ -203,7 +204,7 @@ func (s *vStore) AddWorkload(_ context.Context, wl *types.Workload, _ *types.Pro
 // symbolic; usage satisfies the invariant usage = sum(workloads).
 func vMkWorld(nw, maxFaultAt int) (*Calcium, *vWorld, []int) {
 	c, st := vCluster(1, 1)
-	w := &vWorld{st: st, usage: map[string]int{}, applied: map[string]int{}, running: map[string]bool{}}
+	w := &vWorld{st: st, usage: map[string]int{}, capacity: map[string]int{}, applied: map[string]int{}, running: map[string]bool{}}
 	st.w = w
 	c.rmgr = &vRmgr{w: w}
 	eng := &vEngine{w: w}
